@@ -103,7 +103,7 @@ var rfcConsts = []struct {
 var headerMinSize = map[string]int{"Ethernet": 14, "ARP": 28, "IPv4": 20, "IPv6": 40, "IPv6Fragment": 8, "ICMPv4": 4, "ICMPv6": 4, "UDP": 8, "TCP": 20}
 
 func propC15(c *Ctx) {
-	c.Explanation = "Decides completely, for all field values, the fixed-offset part of the header codecs by bit-provenance evaluation (each bit of a value is a constant, a bit of the buffer or a bit of a parameter; no execution): (B1) RFC layout - every integer getter returns exactly the buffer bits the RFC diagram assigns to the field (independent table transcribed from RFC 791/8200/792/4443/768/793/826 and IEEE 802.3), every setter and Encode writes exactly those bits from exactly the corresponding parameter bits, address accessors slice exactly the RFC byte ranges; round trip follows (getter o encoder is the identity on every field bit; the bits an encoder drops are exactly the granularity bits: IHL and DataOffset low 2 bits, fragment offset low 3 bits); Encode never writes a bit twice and never beyond the header's minimum size; version nibbles are the RFC constants; (B2) option codecs - each Encode*Option writes kind, length and big-endian value and returns its length, every (kind,length) pair an encoder produces is accepted by both parsers with the same length; (B3) the option parsers and encoders never index outside their slice arguments (interval + linear-fact analysis, shared with C07) and the parser loops always advance; (B4) the Internet checksum's carry handling - every 32->16-bit narrowing in checksum.go is either lossless, the extraction of the two halves fed to ChecksumCombine, or an end-around-carry fold that is complete for the whole range of its operand (so no carry is dropped); the accumulator is 32 bits wide; the odd trailing byte is added as the high byte. NOT decided: that Checksum equals the RFC 1071 sum for every buffer (needs induction over the loop), accumulator overflow for buffers beyond 64 KiB, DNS variable-length parsing."
+	c.Explanation = "Decides completely, for all field values, the fixed-offset part of the header codecs by bit-provenance evaluation (each bit of a value is a constant, a bit of the buffer or a bit of a parameter; no execution): (B1) RFC layout - every integer getter returns exactly the buffer bits the RFC diagram assigns to the field (independent table transcribed from RFC 791/8200/792/4443/768/793/826 and IEEE 802.3), every setter and Encode writes exactly those bits from exactly the corresponding parameter bits, address accessors slice exactly the RFC byte ranges; round trip follows (getter o encoder is the identity on every field bit; the bits an encoder drops are exactly the granularity bits: IHL and DataOffset low 2 bits, fragment offset low 3 bits); Encode never writes a bit twice and never beyond the header's minimum size; version nibbles are the RFC constants; (B2) option codecs - each Encode*Option writes kind, length and big-endian value and returns its length, every (kind,length) pair an encoder produces is accepted by both parsers with the same length; (B3) the option parsers and encoders never index outside their slice arguments (interval + linear-fact analysis, shared with C07) and the parser loops always advance; (B4) the Internet checksum's carry handling - every 32->16-bit narrowing in checksum.go is either lossless, the extraction of the two halves fed to ChecksumCombine, or an end-around-carry fold that is complete for the whole range of its operand (so no carry is dropped); the accumulator is 32 bits wide; the odd trailing byte is added as the high byte. (B4w) every 16-bit word handed to Checksum (initial value) or ChecksumCombine anywhere in the module, incl. the partial-checksum helpers, is free of 16-bit arithmetic that can wrap and of lossy narrowing (interval evaluation of the operands). NOT decided: that Checksum equals the RFC 1071 sum for every buffer (needs induction over the loop), accumulator overflow for buffers beyond 64 KiB, DNS variable-length parsing."
 	c.Assumptions = []string{"encoding/binary.BigEndian semantics", "RFC layout table in prop_c15.go transcribed by hand from the RFCs"}
 	bp := &bitprov{p: c.P}
 	b1 := c.Rule("B1", "K9 bitprov", "accessor/encoder bit maps == RFC layout", 120)
@@ -583,6 +583,7 @@ func checksumCarryRule(c *Ctx, id string) {
 			c.Bad(b4, key, c.pos(in), "32-bit value in "+src.String()+" truncated to 16 bits without folding its upper half back in (end-around carry lost)")
 		})
 	}
+	checksumWordRule(c, id+"w", an)
 	if fn := c.Fn(b4, "header.Checksum"); fn != nil {
 		// final result goes through ChecksumCombine(uint16(v), uint16(v>>16))
 		okRet := false
@@ -601,6 +602,131 @@ func checksumCarryRule(c *Ctx, id string) {
 		}
 		c.Check(odd, b4, "header.Checksum/odd-length-branch", c.P.Pos(fn.Pos()), "odd trailing byte handled on a len&1 branch", "odd-length buffers are no longer handled")
 	}
+}
+
+// checksumWordRule: every 16-bit word handed to the one's-complement sum
+// (both arguments of header.ChecksumCombine, the initial value of
+// header.Checksum), anywhere in the module, is not produced by machine
+// arithmetic that can wrap: a <=16-bit ADD/SUB/MUL/SHL whose mathematical
+// result (interval of the operands at that point) leaves the type's range
+// silently drops the carry that the end-around fold needs, and a narrowing
+// conversion of a wider value not known to fit 16 bits drops its upper half.
+// Arithmetic directly on a running checksum (the result of Checksum,
+// ChecksumCombine, PseudoHeaderChecksum, CalculateChecksum) is flagged for the
+// same reason: only complement, comparison and hand-over are carry-safe.
+func checksumWordRule(c *Ctx, id string, an *Absint) {
+	r := c.Rule(id, "K8 interval check at every checksum hand-over (closed world over the module)", "no wrapped 16-bit arithmetic feeds or modifies a one's-complement sum", 30)
+	isSum := func(n string) bool {
+		return n == "header.Checksum" || n == "header.ChecksumCombine" || n == "header.PseudoHeaderChecksum" || n == "(*stack.Route).PseudoHeaderChecksum" || strings.HasSuffix(n, ".CalculateChecksum")
+	}
+	arith := map[token.Token]bool{token.ADD: true, token.SUB: true, token.MUL: true, token.SHL: true}
+	var wraps func(a *absFn, v ssa.Value, depth int, seen map[ssa.Value]bool) (ssa.Instruction, string)
+	wraps = func(a *absFn, v ssa.Value, depth int, seen map[ssa.Value]bool) (ssa.Instruction, string) {
+		if depth > 6 || seen[v] {
+			return nil, ""
+		}
+		seen[v] = true
+		switch x := v.(type) {
+		case *ssa.Convert:
+			if typeBits(x.Type()) <= 16 && typeBits(x.X.Type()) > typeBits(x.Type()) && isIntType(x.X.Type()) {
+				if x.Parent() != nil && (FuncName(x.Parent()) == "header.Checksum" || FuncName(x.Parent()) == "header.ChecksumCombine") {
+					return nil, "" // the fold itself: decided conversion by conversion above
+				}
+				src := a.eval(x.X, x.Block().Index)
+				if src.empty() || !src.within(typeRange(x.Type())) {
+					return x, "a " + TypeStr(x.X.Type()) + " value in " + src.String() + " is truncated to " + TypeStr(x.Type()) + " before it is added to the checksum: its upper half is not folded back in"
+				}
+			}
+			return wraps(a, x.X, depth+1, seen)
+		case *ssa.ChangeType:
+			return wraps(a, x.X, depth+1, seen)
+		case *ssa.Phi:
+			for _, e := range x.Edges {
+				if in, why := wraps(a, e, depth+1, seen); in != nil {
+					return in, why
+				}
+			}
+		case *ssa.BinOp:
+			if bits := typeBits(x.Type()); bits > 0 && bits <= 16 && arith[x.Op] && isIntType(x.Type()) {
+				xi, yi := a.eval(x.X, x.Block().Index), a.eval(x.Y, x.Block().Index)
+				var m Itv
+				switch x.Op {
+				case token.ADD:
+					m = xi.add(yi)
+				case token.SUB:
+					m = xi.add(yi.neg())
+				case token.MUL:
+					m = xi.mul(yi)
+				default:
+					m = topItv
+				}
+				if m.empty() || !m.within(typeRange(x.Type())) {
+					return x, TypeStr(x.Type()) + " arithmetic " + a.t.T(x) + " with operands in " + xi.String() + " and " + yi.String() + " can wrap: the carry out of bit 15 is lost instead of being added back (end-around carry), so the checksum is off by one for those inputs"
+				}
+				if in, why := wraps(a, x.X, depth+1, seen); in != nil {
+					return in, why
+				}
+				return wraps(a, x.Y, depth+1, seen)
+			}
+		}
+		return nil, ""
+	}
+	n := 0
+	for _, fn := range c.P.Funcs {
+		if inTesting(fn) || len(fn.Blocks) == 0 {
+			continue
+		}
+		var a *absFn
+		get := func() *absFn {
+			if a == nil {
+				a = an.get(fn)
+			}
+			return a
+		}
+		Instrs(fn, func(in ssa.Instruction) {
+			switch x := in.(type) {
+			case *ssa.Call:
+				name := CalleeName(x)
+				var words []ssa.Value
+				switch name {
+				case "header.ChecksumCombine":
+					words = x.Common().Args
+				case "header.Checksum":
+					words = x.Common().Args[1:]
+				default:
+					return
+				}
+				for i, w := range words {
+					n++
+					key := FuncName(fn) + "/" + name + "#" + itoa(i) + ":" + get().t.T(w)
+					if bad, why := wraps(get(), w, 0, map[ssa.Value]bool{}); bad != nil {
+						c.Bad(r, key, c.pos(bad), why)
+					} else {
+						c.Ok(r, key, c.pos(in), "word handed to the sum is carry-safe")
+					}
+				}
+			case *ssa.BinOp:
+				if !arith[x.Op] || typeBits(x.Type()) > 16 || typeBits(x.Type()) == 0 {
+					return
+				}
+				if FuncName(fn) == "header.Checksum" || FuncName(fn) == "header.ChecksumCombine" {
+					return
+				}
+				for _, op := range []ssa.Value{x.X, x.Y} {
+					if call, ok := op.(*ssa.Call); ok && isSum(CalleeName(call)) {
+						n++
+						key := FuncName(fn) + "/arith-on-sum:" + get().t.T(x)
+						if bad, why := wraps(get(), x, 0, map[ssa.Value]bool{}); bad != nil {
+							c.Bad(r, key, c.pos(bad), "arithmetic on a running checksum: "+why)
+						} else {
+							c.Ok(r, key, c.pos(in), "cannot wrap")
+						}
+					}
+				}
+			}
+		})
+	}
+	_ = n
 }
 
 func isHalfExtraction(cv *ssa.Convert) bool {
